@@ -119,6 +119,8 @@ func RunProfile(profile, tier string, seed int64, out string, shards int, script
 			}
 			RandomHistory(s.Next(), rng, o)
 		}
+		driveBigAppend(s, rng, thorough)
+		driveBigIO(s, rng, thorough)
 		return s.finish(profile, types)
 	}
 	if f, ok := profileFns[profile]; ok {
